@@ -238,6 +238,7 @@ def cross_packages(sc, quick):
             {"kind": "alias", "name": "XGMap", "tparams": ["T"], "type": ("map", P("string"), ("tparam", "T"))},
             {"kind": "record", "name": "XPair", "tparams": ["A", "B"], "fields": [("first", ("tparam", "A")), ("second", ("tparam", "B"))]},
             {"kind": "record", "name": "XBox", "tparams": ["T"], "fields": [("v", ("tparam", "T")), ("vs", ("vec", ("tparam", "T"), None)), ("o", ("opt", ("tparam", "T")))]},
+            {"kind": "record", "name": "XArrOpt", "tparams": ["T"], "fields": [("f", ("opt", ("arr", ("tparam", "T"), ("fixed", [3], None))))]},
             {"kind": "alias", "name": "XPairIS", "tparams": [], "type": N("XPair", P("int32"), P("string"))},
             {"kind": "alias", "name": "XUnion2", "tparams": [], "type": N("XUnion")},
             {"kind": "alias", "name": "XRec2", "tparams": [], "type": N("XRec")},
@@ -253,7 +254,9 @@ def cross_packages(sc, quick):
                   ("gvec", L("XGVec", L("XEnum")), "seq"), ("arr", L("XArr"), "seq"), ("arrF", L("XArrF"), "seq"), ("img", L("XImg", P("float64")), "seq"),
                   ("map", L("XMap"), "seq"), ("gmap", L("XGMap", L("XRec")), "seq"), ("pair", L("XPair", L("XInt"), L("XUnion")), "plain"),
                   ("box", L("XBox", L("XEnum")), "plain"), ("boxRec", L("XBox", L("XRec2")), "plain"), ("pairIS", L("XPairIS"), "plain"), ("union2", L("XUnion2"), "union"),
-                  ("rec2", L("XRec2"), "plain"), ("enum2", L("XEnum2"), "plain")]
+                  ("rec2", L("XRec2"), "plain"), ("enum2", L("XEnum2"), "plain"),
+                  # a generic whose parameter is an array element type, instantiated with itself
+                  ("arrOpt", L("XArrOpt", P("uint64")), "plain"), ("arrOptNested", L("XArrOpt", L("XArrOpt", P("uint64"))), "plain")]
         defs = []
         defs.append({"kind": "record", "name": "UBox", "tparams": ["T"], "fields": [("v", ("tparam", "T"))]})
         defs.append({"kind": "record", "name": "UDirect", "tparams": [], "fields": [(n, t) for n, t, _ in things]})
